@@ -15,6 +15,15 @@ from shape import add_terms
 def classify(x, b, bi):
     if x == ('c', 1, 'usize'):
         return 'one code unit'
+    if x[0] == 'len':
+        # the length of a prefix cut at k is k: s.split_at(k).0.len(), s[..k].len()
+        y = strip_ref(x[1])
+        while y[0] in ('deref', 'ref'):
+            y = strip_ref(y[1])
+        if y[0] == 'fld' and y[2] == '0' and y[1][0] == 'call' and (y[1][1] or '').endswith('::split_at') and len(y[1][2]) == 2:
+            return classify(y[1][2][1], b, bi)
+        if y[0] == 'call' and 'index' in (y[1] or '').rsplit('::', 1)[-1] and len(y[2]) == 2 and y[2][1][0] == 'agg' and y[2][1][1].endswith('RangeTo::RangeTo'):
+            return classify(y[2][1][2][0], b, bi)
     if x[0] == 'call' and x[1] == 'utf_8::utf8_valid_up_to':
         return 'validator answer'
     if x[0] == 'fld' and x[2] == '1':
